@@ -28,6 +28,15 @@ its origin index (even); the coarse axis is `coarsen fine`, its origin `of / 2`.
                                             every coarse state> <coarse rates>` (states: first coordinate slowest)
   couplend <axes> <o> <values> <inc> <u> -> the coupled value, or `raise`
   cex                                   -> the numbers of the negation witness `telescoping_nd_counterexample`
+  cexaxes                               -> the numbers of the negation witness `axes_counterexample` (two different axes):
+                                           `<coarse A> <coarse B> <fine A> <fine B> <cornerProbs [0,3]> <coupleNd [0,3] at 3/4>
+                                            <coupledRate2 [4,8]> <rateNd coarse [2,4]> <coupledRate2 [8,4]> <rateNd coarse [4,2]>`
+  sde <axis> <o> <h> <midtbl> <L> <diffs> <drifts>
+                                        -> the record `CouplingSDE.next_level` keeps (Model `sdeLevelAt`), the driver chain built on
+                                           the grid of level l having diffusion coefficient / drift `diffs[l]`, `drifts[l]`:
+                                           `<mc_drift_h, diffFine, epsilon's h at level 0> <rows, one per level 1..L:
+                                            level, mc_drift_h, mc_drift_2h, diffFine, diffCoarse, epsilon's h, driver grid h,
+                                            driver origin, drift and coefficient read by the coarse component (sdeUses 1)>`
 -/
 
 def parseTriples (s : String) : Option (List (Rat × Rat × Rat)) := do
@@ -185,6 +194,29 @@ def step (t : List String) : String :=
         coupledRate2 [cexFine, cexFine] 2 lineMargin [2 * i, 2 * j]))) ++ " " ++
       showListList showRat ((List.range 3).map (fun i => (List.range 3).map (fun j =>
         rateNd amid [cexCoarse, cexCoarse] 1 (joint 2 lineMargin) [i, j])))
+  | ["sde", ax, o, h, tbl, l, diffs, drifts] =>
+    match parseRatList? ax, parseNat? o, parseRat? h, parseTriples tbl, parseNat? l, parseRatList? diffs, parseRatList? drifts with
+    | some ax, some o, some h, some tbl, some l, some diffs, some drifts =>
+      let mid := midOf tbl
+      let chain : Grid → ChainParams Rat := fun g =>
+        let k := ((List.range (l + 1)).find? (fun k => o * 2 ^ k == g.origin)).getD 0
+        { diff := diffs.getD k 0, drift := drifts.getD k 0, x0 := 0 }
+      let S0 := sdeLevelAt mid chain ⟨[ax], h, o⟩ 0
+      showRatList [S0.mcDriftH, S0.drv.diffFine, S0.epsH] ++ " " ++
+        showListList showRat ((List.range l).map (fun k =>
+          let S := sdeLevelAt mid chain ⟨[ax], h, o⟩ (k + 1)
+          let u := (sdeUses S 1).getD (0, 0)
+          [(S.level : Rat), S.mcDriftH, S.mcDrift2H.getD 0, S.drv.diffFine, S.drv.diffCoarse, S.epsH, S.drv.grid.h,
+            (S.drv.grid.origin : Rat), u.1, u.2]))
+    | _, _, _, _, _, _, _ => "bad-op"
+  | ["cexaxes"] =>
+    showRatList cexCoarseA ++ " " ++ showRatList cexCoarseB ++ " " ++ showRatList cexFineA ++ " " ++ showRatList cexFineB ++ " " ++
+      showRatList (cornerProbs [cexFineA, cexFineB] 4 lebMargin [0, 3]) ++ " " ++
+      showOpt showRatList (coupleNd [cexFineA, cexFineB] 4 lebMargin [0, 3] (3 / 4)) ++ " " ++
+      showRat (coupledRate2 [cexFineA, cexFineB] 4 indepMargin [4, 8]) ++ " " ++
+      showRat (rateNd amid [cexCoarseA, cexCoarseB] 2 (joint 2 indepMargin) [2, 4]) ++ " " ++
+      showRat (coupledRate2 [cexFineA, cexFineB] 4 indepMargin [8, 4]) ++ " " ++
+      showRat (rateNd amid [cexCoarseA, cexCoarseB] 2 (joint 2 indepMargin) [4, 2])
   | _ => "bad-op"
 
 def main : IO Unit := runStateless step
